@@ -4,6 +4,7 @@ import random
 from bumble import core, crypto, hci, smp
 from bumble.crypto import builtin as cb
 from bumble.crypto import cryptography as cc
+from pyvc import ext_c14  # noqa: F401  (engine extensions: XOR normal form, ...)
 from pyvc.contracts import (NATIVE_UF, Any, Bool, Bytes, BytesN, Callback, Inst, Int, IntRange, OneOf, Opt, contract, iff,
                             implies, lemma, model, at, ite, ufb)
 from spec.crypto import (AES, CMAC, P256_A, P256_B, P256_P, shift_spec, ah_be, bxor, c1_be, cmac_rfc, dbl, e_be, f4_be, f5_be, f6_be, g2_be, h6_be,
